@@ -250,6 +250,35 @@ func randomPlan(rng *rand.Rand) string {
 	return string(p)
 }
 
+// a long backlog behind a receiver that took a few values and then stalled: a growing buffer grows (more than once)
+// while its read position is not at the start
+func backlogPlan(rng *rand.Rand) string {
+	p := []byte{}
+	for cycle := 1 + rng.Intn(2); cycle > 0; cycle-- {
+		w := 1 + rng.Intn(8)
+		for i := 0; i < w; i++ {
+			p = append(p, 'S')
+		}
+		for i := 1 + rng.Intn(w); i > 0; i-- {
+			p = append(p, 'R')
+		}
+		b := 60 + rng.Intn(140)
+		for i := 0; i < b; i++ {
+			p = append(p, 'S')
+		}
+		for i := rng.Intn(b + w + 3); i > 0; i-- {
+			p = append(p, 'R')
+		}
+	}
+	switch rng.Intn(3) {
+	case 0:
+		p = append(p, 'C')
+	case 1:
+		p = append(p, 'X')
+	}
+	return string(p)
+}
+
 func runQueue(rng *rand.Rand, n int) (ops [][]int) {
 	q := pipe.VerifNewQ[int]()
 	size := 0
@@ -363,10 +392,10 @@ func TestC08(t *testing.T) {
 	}
 
 	maxLen := 7
-	nRandom, nQueue, qOps := 200, 6, 10000
+	nRandom, nQueue, qOps, nBacklog := 200, 6, 10000, 24
 	if thorough {
 		maxLen = 9
-		nRandom, nQueue, qOps = 1500, 12, 100000
+		nRandom, nQueue, qOps, nBacklog = 1500, 12, 100000, 200
 	}
 	if v, err := strconv.Atoi(os.Getenv("VERIF_C08_MAXLEN")); err == nil {
 		maxLen = v
@@ -392,6 +421,11 @@ func TestC08(t *testing.T) {
 		capacity := rng.Intn(4)
 		plan := randomPlan(rng) // drawn even when skipped: the stream of random numbers must not depend on VERIF_FROM
 		pump("random", capacity, plan)
+	}
+	for k := 0; k < nBacklog; k++ {
+		capacity := rng.Intn(4)
+		plan := backlogPlan(rng)
+		pump("backlog", capacity, plan)
 	}
 	if !pipe.VerifQueueAvailable {
 		nQueue = 0 // the unexported queue functions are not what the wrappers expect: pump layer only
